@@ -517,7 +517,6 @@ func fmtSite(P *Prog, c *CallSite) string {
 	return fmt.Sprintf("%s in %s (%s)", c.Desc(), FuncName(c.Fn), P.Pos(c.Pos()))
 }
 
-
 // sameLoad: both values are loads of the same address (e.g. a captured error variable tested and then returned).
 func sameLoad(a, b ssa.Value) bool {
 	la, ok1 := a.(*ssa.UnOp)
